@@ -28,5 +28,6 @@ def k_sm4(wrappers=("native",), full=True):
             out.append(d)
     return out
 
-K_EC = [c("adx+bmi2"), c("no-adx", "cpu.adx=off"), c("no-bmi2", "cpu.bmi2=off"), c("purego", tags=PUREGO)]
+# no-avx2 selects the SSE table-select paths of internal/sm2ec and internal/sm9/bn256 (appended last: plans index 0 and 3 by position)
+K_EC = [c("adx+bmi2"), c("no-adx", "cpu.adx=off"), c("no-bmi2", "cpu.bmi2=off"), c("purego", tags=PUREGO), c("no-avx2", "cpu.avx2=off")]
 K_ZUC = [c("aesni+avx+clmul"), c("no-avx", "cpu.avx=off"), c("no-aes", "cpu.aes=off"), c("no-pclmul", "cpu.pclmulqdq=off"), c("purego", tags=PUREGO)]
